@@ -56,8 +56,6 @@ let () =
       gres (fun (xs, rest) -> out_zlist xs ^ " " ^ tok_of_bytes rest) (Model.go_dbp_dec (k_of k) (bytes_of_tok b)) | _ -> failwith "args");
   register "c04.go_delta_cost" (function [sections; limit; b] ->
       hex_of_n (Model.dbp_sections_cost (nat_of_int (int_of_string sections)) (n_of_int (int_of_string limit)) (bytes_of_tok b)) | _ -> failwith "args");
-  register "c04.go_delta_quirk" (function [sections; k; b] ->
-      hex_of_n (Model.go_delta_quirk (nat_of_int (int_of_string sections)) (k_of k) (bytes_of_tok b)) | _ -> failwith "args");
   register "c04.go_dlba_dec" (function [b] ->
       gres (fun (data, offs) -> tok_of_bytes data ^ " " ^ out_nlist offs) (Model.go_dlba_dec (bytes_of_tok b)) | _ -> failwith "args");
   register "c04.go_dba_dec" (function [b] -> gres out_blist (Model.go_dba_dec (bytes_of_tok b)) | _ -> failwith "args")
